@@ -24,6 +24,7 @@ command line tools through a temporary rebinding of their module-level names.
 import copy
 import importlib
 import itertools
+import json
 import os
 import random
 import tempfile
@@ -169,7 +170,21 @@ def gspec(spec):
     raise KeyError(spec)
 
 
+# When _SHARED is a dict, equal graph specifications yield THE SAME graph
+# object (families called one after the other on one graph object).
+_SHARED = None
+
+
 def mk_g(spec):
+    if _SHARED is not None:
+        key = 'mk_g:' + json.dumps(spec)
+        if key not in _SHARED:
+            _SHARED[key] = _mk_g_fresh(spec)
+        return _SHARED[key]
+    return _mk_g_fresh(spec)
+
+
+def _mk_g_fresh(spec):
     if spec[0] == 'nx':                  # hand the family a networkx graph
         import networkx
         n, E = gspec(spec[1])
@@ -212,6 +227,15 @@ def bspec(spec):
 
 
 def mk_b(spec):
+    if _SHARED is not None:
+        key = 'mk_b:' + json.dumps(spec)
+        if key not in _SHARED:
+            _SHARED[key] = _mk_b_fresh(spec)
+        return _SHARED[key]
+    return _mk_b_fresh(spec)
+
+
+def _mk_b_fresh(spec):
     L, R, E = bspec(spec)
     return scope.mk_bipartite(L, R, E)
 
@@ -231,6 +255,15 @@ def dspec_n(spec):
 
 
 def mk_d(spec):
+    if _SHARED is not None:
+        key = 'mk_d:' + json.dumps(spec)
+        if key not in _SHARED:
+            _SHARED[key] = _mk_d_fresh(spec)
+        return _SHARED[key]
+    return _mk_d_fresh(spec)
+
+
+def _mk_d_fresh(spec):
     from cnfgen import graphs
     k = spec[0]
     if k == 'pyramid':
@@ -1196,6 +1229,11 @@ GROUP_OPS = {
     'new_combinations_with_replacement(2,2)': (lambda F: F.new_combinations_with_replacement(2, 2), 3),
     'new_permutations(3,2)': (lambda F: F.new_permutations(3, 2), 6),
     'new_words(2,2)': (lambda F: F.new_words(2, 2), 4),
+    # boundary k = 0: exactly one (empty) index, hence one variable
+    'new_permutations(3,0)': (lambda F: F.new_permutations(3, 0), 1),
+    'new_combinations(3,0)': (lambda F: F.new_combinations(3, 0), 1),
+    'new_words(2,0)': (lambda F: F.new_words(2, 0), 1),
+    'new_permutations(3)': (lambda F: F.new_permutations(3), 6),
     'new_mapping(2,2)': (lambda F: F.new_mapping(2, 2), 4),
     'new_mapping(0,3)': (lambda F: F.new_mapping(0, 3), 0),
     'new_sparse_mapping(B)': (lambda F: F.new_sparse_mapping(_opB()), 3),
@@ -1258,6 +1296,7 @@ ALPHABETS['full'] = ALPHABETS['core'] + [
 ALPHABETS['ext'] = ALPHABETS['full'] + [
     'new_variable(label)', 'new_block(3,0,2)', 'new_combinations_with_replacement(2,2)',
     'new_permutations(3,2)', 'new_words(2,2)', 'new_mapping(0,3)', 'new_binary_mapping(3,1)',
+    'new_permutations(3,0)', 'new_combinations(3,0)', 'new_words(2,0)', 'new_permutations(3)',
     'new_bipartite_edges(B)', 'new_digraph_edges(D,pred)', 'new_digraph_edges(D,succ)',
     'update_variable_number(nv-1)', 'cardinality_leq((nv+1,nv+2,nv+3),1)']
 
@@ -1604,8 +1643,57 @@ def run_controls(args, R):
 
 
 # ============================================================ shards / replay
+def check_shared_case(case, R=None):
+    """Several families built one after the other on the SAME graph objects:
+    nothing a family leaves behind on a graph may disturb the next formula."""
+    global _SHARED
+    _SHARED = {}
+    try:
+        for (fam, args, cls) in case['seq']:
+            vs = check_family_case({'kind': 'fam', 'fam': fam, 'args': args, 'cls': cls}, R)
+            if vs:
+                out = []
+                for v in vs:
+                    v = dict(v)
+                    v['key'] = 'shared-graph:' + v['key']
+                    v['case'] = dict(case)
+                    out.append(v)
+                return out
+    finally:
+        _SHARED = None
+    return []
+
+
+def shared_box(tier, seed):
+    cs = []
+    for b in B_BOX:
+        cs.append([['gphp', [b, False, True], 'CNF'], ['subsetcard', [b, False], 'CNF'],
+                   ['gphp', [b, True, False], 'OPB']])
+        cs.append([['subsetcard', [b, True], 'OPB'], ['gphp', [b, False, False], 'CNF']])
+        for d in D_BOX[:3]:
+            if dspec_n(d) == bspec(b)[0]:
+                cs.append([['sparsestone', [d, b], 'CNF'], ['gphp', [b, False, False], 'CNF'],
+                           ['sparsestone', [d, b], 'OPB']])
+    for d in D_BOX:
+        n = dspec_n(d)
+        b = ['bshift', n, 3, [0, 1]] if n >= 1 else None
+        if b is not None:
+            cs.append([['sparsestone', [d, b], 'CNF'], ['gphp', [b, False, False], 'CNF'],
+                       ['subsetcard', [b, False], 'CNF'], ['sparsestone', [d, b], 'CNF']])
+        cs.append([['peb', [d], 'CNF'], ['stone', [d, 3], 'CNF'], ['peb', [d], 'OPB']])
+    for g in G_BOX:
+        if g[0] == 'nx':
+            continue
+        cs.append([['matching', [g], 'CNF'], ['tseitin', [g, None], 'CNF'], ['kcolor', [g, 3, True], 'CNF'],
+                   ['tiling', [g], 'CNF'], ['kclique', [g, 3, True], 'CNF'], ['matching', [g], 'OPB']])
+        cs.append([['kcolor', [g, 2, False], 'OPB'], ['tiling', [g], 'OPB'], ['tseitin', [g, None], 'CNF']])
+    return [{'kind': 'shared', 'seq': seq} for seq in cs]
+
+
 def check_case(case, R=None):
     k = case.get('kind')
+    if k == 'shared':
+        return check_shared_case(case, R)
     if k == 'fam':
         return check_family_case(case, R)
     if k == 'cli':
@@ -1629,6 +1717,8 @@ def run_cases(chunk, R):
         R.case(sample=case if R.evals % 211 == 0 else None, nontrivial=R.nt)
         if case['kind'] == 'cli':
             R.outcomes['cli:' + case['tool']] += 1
+        elif case['kind'] == 'shared':
+            R.outcomes['shared-graph-sequences'] += 1
         elif case.get('chain'):
             R.outcomes['chain:depth%d' % len(case['chain'])] += 1
             R.stats['chain_depth%d_cases' % len(case['chain'])] += 1
@@ -1648,7 +1738,7 @@ def _bfs_jobs(tier):
 
 def shards(tier, seed):
     out = []
-    cases = family_box(tier, seed) + chain_box(tier, seed) + cli_box(tier, seed)
+    cases = family_box(tier, seed) + chain_box(tier, seed) + cli_box(tier, seed) + shared_box(tier, seed)
     k = 48 if tier == 'thorough' else 32
     for i, chunk in enumerate(scope.stripe(cases, k)):
         out.append(('a%03d' % i, 'run_cases', chunk))
